@@ -98,7 +98,7 @@ PExpr(fx, toks, pos, minp) ==
 
 \* the postfix loop of parse_expression
 PLoop(fx, toks, pos, minp, left0) ==
-    IF AtEnd(toks, pos) THEN Ok(left0, pos)            \* returned as is (still finalized)
+    IF AtEnd(toks, pos) THEN Ok(Unfinalize(left0), pos)  \* a finalized tuple becomes a plain one
     ELSE
     LET tk == toks[pos]
         \* an open comparison chain is closed by anything but another comparison operator
